@@ -35,6 +35,12 @@ type LifeScenario struct {
 	// Stalled: the kernel injects stalls (Config.StallPct): oracles that rely on
 	// code taking no simulated time are not evaluated.
 	Stalled bool `json:"stalled,omitempty"`
+	// AcceptFaults: the kernel makes Accept fail with temporary errors that are
+	// not timeouts (Config.AcceptErrPct). Nothing says whether a serving call
+	// survives such an error: it may return it (drained, endpoint released) or
+	// go on serving; it must not report an idle timeout that has not elapsed, nor
+	// return nil as if it had been shut down.
+	AcceptFaults bool `json:"accept_faults,omitempty"`
 
 	svc     *varlink.Service
 	ctxs    []context.Context
@@ -428,6 +434,9 @@ func (s *LifeScenario) Check(k *sim.Kernel) []sim.Violation {
 				obliged = false
 			}
 		}
+		if obliged && rounds[target].lis != nil && len(rounds[target].lis.AcceptErrLog) > 0 {
+			obliged = false // the round may legitimately have ended with the injected accept error
+		}
 		if obliged && (conn == nil || conn.AcceptSeq == 0) && quiet {
 			why := "its dial was refused or never happened"
 			if conn != nil {
@@ -605,6 +614,9 @@ func (s *LifeScenario) Check(k *sim.Kernel) []sim.Violation {
 			if strings.HasPrefix(rd.retErr, "error") && len(l.AcceptLog) == 0 {
 				break // could not start serving; judged elsewhere
 			}
+			if acceptErrReturned(l, rd.retErr, rd.retSeq) {
+				break // an injected accept failure, handed to the caller as it is
+			}
 			out = append(out, vio("stops-by-itself", "unexpected-return "+classifyRet(rd.retErr), "round %d (timeout %v) returned %q at %v although no Shutdown was issued", rd.idx, to, rd.retErr, rd.retAt))
 		}
 		// a round with idle timeout that nobody shut down must have ended by that timeout
@@ -704,6 +716,18 @@ func (s *LifeScenario) Check(k *sim.Kernel) []sim.Violation {
 	}
 	out = append(out, s.checkRelease(k)...)
 	return out
+}
+
+// acceptErrReturned: the serving call returned the error of an accept failure
+// injected on its listener before the return.
+func acceptErrReturned(l *sim.Listener, retErr string, retSeq uint64) bool {
+	text := map[string]string{"EMFILE": "too many open files", "ENFILE": "too many open files in system", "ECONNABORTED": "software caused connection abort"}
+	for _, a := range l.AcceptErrLog {
+		if a.Seq < retSeq && strings.HasPrefix(retErr, "error") && strings.Contains(retErr, text[a.Errno]) {
+			return true
+		}
+	}
+	return false
 }
 
 func classifyRet(e string) string {
@@ -958,6 +982,27 @@ func genServeCtx(g *Gen, prop string, tier string) *LifeScenario {
 	return s
 }
 
+// genAcceptFaults: one scenario in eight also meets failing accept(2) calls
+// (a generator of its own, so that the other scenarios stay what they were).
+func genAcceptFaults(seed uint64, s *LifeScenario) {
+	g := NewGen(seed, 0xACCE)
+	if g.IntN(8) != 0 {
+		return
+	}
+	for _, ops := range s.Ctl {
+		for _, op := range ops {
+			if op.Op == "bind2" || op.Op == "listen2" {
+				// whether a second bind is refused depends on the first serving call
+				// still running, which an accept failure may have ended
+				return
+			}
+		}
+	}
+	s.AcceptFaults = true
+	s.Config.AcceptErrPct = []int{10, 30, 60, 100}[g.IntN(4)]
+	s.Config.AcceptErrMax = 1 + g.IntN(3)
+}
+
 func genC14(seed uint64, tier string) Scenario {
 	g := NewGen(seed, 0xC14)
 	s := &LifeScenario{Prop: "C14", Config: genConfig(g), Scripts: map[int]Script{}}
@@ -1084,6 +1129,7 @@ func genC14(seed uint64, tier string) Scenario {
 		}
 		return s
 	}
+	defer genAcceptFaults(seed, s)
 	if !s.Cancels && !second && g.Pct(12) {
 		// accounting across rounds: a Shutdown that finds a connection open, then a
 		// round with an idle timeout whose holder connection must keep it alive
@@ -1242,6 +1288,7 @@ func genC15(seed uint64, tier string) Scenario {
 			}
 		}
 	}
+	genAcceptFaults(seed, s)
 	if g.Pct(15) {
 		s.Config.StallPct = 1 + g.IntN(3)
 		s.Stalled = true
